@@ -110,6 +110,28 @@ def run(ctx):
             if sv[0] == "ok" and len(sv[1]) <= 3000:
                 check_file(ctx, ld, case, sv[1], reqs, pend)
         ctx.exhaustive.append("every cut point of each of %d files" % len(pend))
+        # files written by other versions or tools (row-id words of 1, 2 or 8 bytes; any legal coordinate word size): a torn
+        # one must be rejected just the same.  Encoded by the independent encoder, every strict prefix loaded.
+        n_other = 0
+        for case in list(X.exhaustive_cases())[::5] + [X.gen_case(ctx.rng, small=True) for _ in range(ctx.n(12))]:
+            mx = max([0] + [r for _k, rows in case["entries"] for r in rows])
+            for wr in (1, 2, 8):
+                if mx >= 256 ** wr or any(len(rows) >= 256 ** wr for _k, rows in case["entries"]):
+                    continue
+                b = X.spec_encode(case["entries"], case["common"], wr=wr)
+                if len(b) > 1500:
+                    continue
+                n_other += 1
+                ctx.hit("other_rowid_word:%d" % wr)
+                for k in range(len(b)):
+                    lo = ld.load(b[:k])
+                    ctx.evaluations += 1
+                    if lo[0] == "ok":
+                        ctx.oracle_fail("load of a file with %d-byte row-id words cut at byte %d of %d returned entries %s" % (
+                            wr, k, len(b), str(lo[1])[:120]), dict(X.small_desc(case), cut=k, file_len=len(b), rowid_word=wr),
+                            cls="C12-torn-accepted")
+                        break
+        ctx.exhaustive.append("every cut point of %d independently encoded files with 1/2/8-byte row-id words" % n_other)
         interrupted_saves(ctx, ld)
         if ctx.oracle_only:
             return
@@ -126,6 +148,13 @@ def run(ctx):
 def replay(ctx, rep):
     core.load_catii()
     c = rep["case"]
+    if c.get("rowid_word"):
+        ld = X.Loader()
+        try:
+            b = X.spec_encode(c["entries"], c["common"], wr=c["rowid_word"])
+            return ld.load(b[:c["cut"]])[0] != "ok"
+        finally:
+            ld.close()
     if "interrupted_save" in c:
         c2 = core.Ctx(ID, "quick", 0)
         ld = X.Loader()
